@@ -44,6 +44,7 @@ type AsyncScn struct {
 	Overflow   bool      `json:"overflow,omitempty"`     // C12: Block policy with more writes than the buffer holds
 	Restart    bool      `json:"restart,omitempty"`      // direct AsyncLogger: a first life (Start, a few items, Stop) precedes the workload on the SAME object
 	SleepMs    int       `json:"sleep_ms,omitempty"`     // the recording appender takes this much simulated time per item
+	HName      string    `json:"handle_name,omitempty"`  // C12 (Refresh-built): the logger's name, if not "alog"
 	LongRun    int       `json:"long_run,omitempty"`     // C06: two producers submit this many items against a held worker
 	SyncFail   bool      `json:"sync_fail,omitempty"`    // C05: fsync on the log files fails (EINVAL, as on a pipe or a full disk) from before Stop on
 	Rejected   bool      `json:"rejected_refresh,omitempty"` // C05 (Refresh-built): a second Refresh is attempted (and rejected) while the configuration is live
